@@ -179,6 +179,66 @@ class Beta(ast.NodeTransformer):
         return node
 
 
+def cross_call_memos(fi):
+    """attribute memo tables of a method (`if K not in self.X: self.X[K] = V`) and whether each is valid across calls:
+    emptied unconditionally by the call, or emptied unless a stored snapshot equals the current value of everything V depends on
+    besides the key.  -> {X: (valid, explanation)}"""
+    out = {}
+    defs = Defs(fi.body)
+    for g in ast.walk(fi.node):
+        if not isinstance(g, ast.If):
+            continue
+        for t in ast.walk(g.test):
+            if not (isinstance(t, ast.Compare) and len(t.ops) == 1 and isinstance(t.ops[0], ast.NotIn) and isinstance(t.comparators[0], ast.Attribute)
+                    and U(t.comparators[0].value) == 'self'):
+                continue
+            X = t.comparators[0].attr
+            stores = [st for st in ast.walk(g) if isinstance(st, ast.Assign) and isinstance(st.targets[0], ast.Subscript)
+                      and U(st.targets[0].value) == 'self.' + X]
+            if not stores:
+                continue
+            V = expand(stores[0].value, defs, comps=True)
+            K = expand(t.left, defs, comps=True)
+            bound = {x.id for c in ast.walk(V) if isinstance(c, ast.comprehension) for x in ast.walk(c.target) if isinstance(x, ast.Name)}
+            deps = {x.id for x in ast.walk(V) if isinstance(x, ast.Name)} - bound - {x.id for x in ast.walk(K) if isinstance(x, ast.Name)} \
+                - {x.id for x in ast.walk(t.left) if isinstance(x, ast.Name)} - {'self', 'set', 'frozenset', 'tuple', 'next', 'None', 'len', 'sorted', 'list'}
+            resets = [st for st in ast.walk(fi.node) if isinstance(st, ast.Assign) and any(U(x) == 'self.' + X for x in st.targets)]
+            verdict = (False, 'self.%s is never emptied: entries computed from `%s` in an earlier call answer for the current one' % (X, sorted(deps)))
+            for r in resets:
+                par = getattr(r, '_parent', None)
+                if par is fi.node:
+                    verdict = (True, 'emptied by every call')
+                    break
+                if isinstance(par, ast.If) and r in par.body and getattr(par, '_parent', None) is fi.node:
+                    # `if not (A and SNAP == Y)` / `if SNAP != Y`
+                    snaps = []
+                    for c in ast.walk(par.test):
+                        if isinstance(c, ast.Compare) and len(c.ops) == 1 and isinstance(c.ops[0], (ast.Eq, ast.NotEq)):
+                            l, r_ = c.left, c.comparators[0]
+                            for a, b in ((l, r_), (r_, l)):
+                                sn = None
+                                if isinstance(a, ast.Call) and U(a.func) == 'getattr' and len(a.args) >= 2 and U(a.args[0]) == 'self' \
+                                        and isinstance(a.args[1], ast.Constant):
+                                    sn = a.args[1].value
+                                elif isinstance(a, ast.Attribute) and U(a.value) == 'self':
+                                    sn = a.attr
+                                if sn is not None and isinstance(b, ast.Name):
+                                    snaps.append((sn, b.id))
+                    kept = [(sn, y) for sn, y in snaps
+                            if any(isinstance(st, ast.Assign) and any(U(x) == 'self.' + sn for x in st.targets) and U(st.value) == y
+                                   and getattr(st, '_parent', None) is fi.node for st in ast.walk(fi.node))]
+                    covered = {y for sn, y in kept}
+                    if kept and deps <= covered:
+                        verdict = (True, 'emptied unless the stored snapshot `self.%s` equals the current `%s`, which is all the entries depend on besides the key'
+                                   % (kept[0][0], kept[0][1]))
+                    else:
+                        verdict = (False, 'self.%s is emptied only when `%s` holds; its entries depend on %s, of which no snapshot is compared: a later call '
+                                   'with other cliques reuses stale entries' % (X, U(par.test)[:80], sorted(deps)))
+            out[X] = verdict
+    return out
+
+
+
 _tables_cache = {}
 
 
@@ -604,17 +664,32 @@ class Normaliser:
                 local_dicts.add(n.targets[0].id)
         # a memo table is only ever: initialised, tested by `K not in C`, stored under a guard, and read as C[K]
         for C in list(local_dicts):
-            uses = sum(1 for n in ast.walk(node) if isinstance(n, ast.Name) and n.id == C)
+            uses = sum(1 for n in ast.walk(node) if isinstance(n, (ast.Name, ast.Attribute)) and U(n) == C)
             ok_uses = 0
             for n in ast.walk(node):
-                if isinstance(n, ast.Assign) and len(n.targets) == 1 and isinstance(n.targets[0], ast.Name) and n.targets[0].id == C:
+                if isinstance(n, ast.Assign) and len(n.targets) == 1 and isinstance(n.targets[0], (ast.Name, ast.Attribute)) and U(n.targets[0]) == C:
                     ok_uses += 1
                 elif isinstance(n, ast.If) and self.is_memo_guard(n, {C}):
                     ok_uses += 2          # the test and the guarded store
-                elif isinstance(n, ast.Subscript) and isinstance(n.value, ast.Name) and n.value.id == C and isinstance(n.ctx, ast.Load):
+                elif isinstance(n, ast.Subscript) and isinstance(n.value, (ast.Name, ast.Attribute)) and U(n.value) == C and isinstance(n.ctx, ast.Load):
                     ok_uses += 1
             if uses != ok_uses:
                 local_dicts.discard(C)
+        # attribute tables kept between calls that are emptied whenever what their entries depend on changes are looked through
+        # in the same way (an invalid one is left alone: rules/C13 reports it)
+        class _FI:
+            pass
+        probe = _FI()
+        probe.node, probe.body = node, node.body
+        for n in ast.walk(node):
+            for ch in ast.iter_child_nodes(n):
+                ch._parent = n
+        try:
+            for X, (valid, why) in cross_call_memos(probe).items():
+                if valid:
+                    local_dicts.add('self.' + X)
+        except Exception:
+            pass
         if not local_dicts:
             return
 
@@ -631,7 +706,7 @@ class Normaliser:
                         lv |= set(target_names(s.target))
                     process(s.body, lv, s.body)
                 elif isinstance(s, ast.If) and loop_vars and self.is_memo_guard(s, local_dicts):
-                    C = s.test.comparators[0].id
+                    C = U(s.test.comparators[0])
                     K = s.test.left
                     store = s.body[-1]
                     # dependencies through the assignments of the loop body and of the guarded block
@@ -669,7 +744,7 @@ class Normaliser:
                         class R(ast.NodeTransformer):
                             def visit_Subscript(self, n):
                                 n = self.generic_visit(n)
-                                if isinstance(n.value, ast.Name) and n.value.id == C and U(n.slice) == ktext and isinstance(n.ctx, ast.Load):
+                                if isinstance(n.value, (ast.Name, ast.Attribute)) and U(n.value) == C and U(n.slice) == ktext and isinstance(n.ctx, ast.Load):
                                     return ast.copy_location(ast.Name(id=tmp, ctx=ast.Load()), n)
                                 return n
                         rest = [R().visit(x) for x in body[i + 1:]]
@@ -692,13 +767,12 @@ class Normaliser:
         t = s.test
         if s.orelse or not s.body:
             return False
-        if not (isinstance(t, ast.Compare) and len(t.ops) == 1 and isinstance(t.ops[0], ast.NotIn) and isinstance(t.comparators[0], ast.Name)
-                and t.comparators[0].id in local_dicts):
+        if not (isinstance(t, ast.Compare) and len(t.ops) == 1 and isinstance(t.ops[0], ast.NotIn) and
+                isinstance(t.comparators[0], (ast.Name, ast.Attribute)) and U(t.comparators[0]) in local_dicts):
             return False
         last = s.body[-1]
         return isinstance(last, ast.Assign) and len(last.targets) == 1 and isinstance(last.targets[0], ast.Subscript) and \
-            isinstance(last.targets[0].value, ast.Name) and last.targets[0].value.id == t.comparators[0].id and \
-            U(last.targets[0].slice) == U(t.left)
+            U(last.targets[0].value) == U(t.comparators[0]) and U(last.targets[0].slice) == U(t.left)
 
     @staticmethod
     def injective_key(K, assigns, before):
